@@ -429,6 +429,8 @@ def generate(rng, seed, tier='quick'):
             if rng.random() < 0.12:
                 loc += rng.choice(['-100%full', '.a:b', '%d', ':1'])      # characters a path may well contain
             dirs.add(loc)
+            if kind == 'pib' and rng.random() < 0.4:
+                dirs.add(loc + '/ndnsec-key-file')      # a key directory next to that database (it is NOT the platform default)
             return f'{scheme}:{loc}'                        # exists, absolute
         if cls == 2:
             rel = f'{kind}-store{rng.randint(0, 3)}'
